@@ -47,7 +47,15 @@ func IntegerSquareRootPrysm(n uint64) uint64 {
 		return v
 	}
 
-	return uint64(math.Sqrt(float64(n)))
+	// float64 has a 53-bit mantissa: above 2^52 the estimate can be off, correct it (division-based, cannot overflow)
+	x := uint64(math.Sqrt(float64(n)))
+	for x > 0 && n/x < x {
+		x--
+	}
+	for x+1 <= n/(x+1) {
+		x++
+	}
+	return x
 }
 
 func IsPowerOfTwo(n uint64) bool {
